@@ -108,7 +108,7 @@ func (mt *memtable) recover() int64 {
 	return maxVersion
 }
 
-func (mt *memtable) set(entry types.Entry) {
+func (mt *memtable) set(entries ...types.Entry) {
 	mt.mu.Lock()
 	defer mt.mu.Unlock()
 
@@ -116,11 +116,14 @@ func (mt *memtable) set(entry types.Entry) {
 		mt.logger.Panicf("write readonly memtable")
 	}
 
-	mt.skiplist.Set(entry)
-	if err := mt.wal.Write(entry); err != nil {
+	// a single append: after a crash the entries are in the wal together or not at all
+	if err := mt.wal.Write(entries...); err != nil {
 		mt.logger.Panicf("write wal failed: %v", err)
 	}
-	mt.logger.Infof("memtable set [key: %v] [value: %v] [tombstone: %v] [version: %v]", entry.Key, string(entry.Value), entry.Tombstone, entry.Version)
+	for _, entry := range entries {
+		mt.skiplist.Set(entry)
+		mt.logger.Infof("memtable set [key: %v] [value: %v] [tombstone: %v] [version: %v]", entry.Key, string(entry.Value), entry.Tombstone, entry.Version)
+	}
 }
 
 func (mt *memtable) get(key types.Key) (types.Entry, bool) {
